@@ -1,14 +1,14 @@
 """C35 Rendered depth and segmentation match ray casting.
 
 proof   : Props/C35.v (Proof/Ray.v): pixel_ray theorems on the translated compute_ray (unit direction
-          through the pixel centre for fovy / intrinsic perspective cameras; orthographic: optical axis for
-          every pixel, `_refuted` for "through the pixel centre"), _build_rays write / pixel index,
+          through the pixel centre for fovy / intrinsic perspective cameras; orthographic: optical axis
+          direction and pixel-centre origin of the repaired kernel), _build_rays write / pixel index,
           render_pixel (Model/Ray.v copy of _render_megakernel + cast_ray) = nearest_fold instance.
 tie     : T-validation of compute_ray, kernel validation of _build_rays, per-pixel correspondence inside Coq
           (render_pixel over translated compute_ray + ray_geom vs the real render kernel's depth / seg).
 oracle  : small images (8x6) of random scenes and cameras, every world: rendered depth and segmentation vs
           mjw.rays cast along the same pixel rays among the rendered geoms; get_depth / get_segmentation
-          extraction; directed probes of the recorded defects (orthographic camera, hfield, off-centre mesh)."""
+          extraction; directed regression probes (orthographic camera and off-centre mesh: repaired in /repo; hfield: open)."""
 
 from __future__ import annotations
 
@@ -21,7 +21,7 @@ import propkit
 import vlib
 
 MANIFEST = {
-  "text": "proof: over R, on the Gallina definition regenerated from render_util.compute_ray: for a perspective camera given by fovy (sensorsize[1]=0) or by intrinsics (focal, principal point, sensor cropped to the image aspect) the pixel direction is the UNIT vector through the pixel centre ((px+1/2)/W,(py+1/2)/H) of the near-plane window, pointing along -z (closed-form components); for an orthographic camera compute_ray returns the optical axis for every pixel and, because the render kernel starts every ray at the camera centre, the pixel ray does not pass through the pixel centre (`_refuted`, 2x1 witness; all pixels render identically); _build_rays stores compute_ray(px,py) at offset+px+py*W and (px,py) is recovered by C rem/quot; the model render_pixel (copy of _render_megakernel + cast_ray: optional back-face cull, `d>=0 and d<best` update in any visiting order, depth = dist * -dir_z, seg = (geom, mjOBJ_GEOM), miss = depth 0 / seg (-1,-1)) returns the nearest eligible candidate (nearest_fold instance). tested only: float32, the Warp BVH traversal, mesh / hfield / flex / splat hits, extraction kernels; not covered: shading, textures",
+  "text": "proof: over R, on the Gallina definition regenerated from render_util.compute_ray: for a perspective camera given by fovy (sensorsize[1]=0) or by intrinsics (focal, principal point, sensor cropped to the image aspect) the pixel direction is the UNIT vector through the pixel centre ((px+1/2)/W,(py+1/2)/H) of the near-plane window, pointing along -z (closed-form components); for an orthographic camera compute_ray returns the optical axis for every pixel and the render kernel (hand model render_origin of the offset added in /repo 2e971a4) starts the ray at the pixel centre of the image window of height fovy: the ray is parallel to the axis, passes through that pixel's centre at every depth, and distinct pixels get distinct rays (this replaces the former `_refuted` theorem about the unrepaired kernel); _build_rays stores compute_ray(px,py) at offset+px+py*W and (px,py) is recovered by C rem/quot; the model render_pixel (copy of _render_megakernel + cast_ray: optional back-face cull, `d>=0 and d<best` update in any visiting order, depth = dist * -dir_z, seg = (geom, mjOBJ_GEOM), miss = depth 0 / seg (-1,-1)) returns the nearest eligible candidate (nearest_fold instance). tested only: float32, the Warp BVH traversal, mesh / hfield / flex / splat hits, extraction kernels; not covered: shading, textures",
   "note": "trusted: Coq kernel; translator bin/translate.py (compute_ray / _build_rays / ray_geom validated each run against the compiled code); Model/Ray.v render_pixel hand model (validated per pixel against the real render kernel inside Coq on primitive scenes); real-number axioms of Coq's Reals; mjw.rays (property C34) as the reference the oracle compares the renderer with",
   "technique": "Rocq proof over functions machine-translated from the source (T) + hand model of the pixel pipeline, translation validation, kernel validation, per-pixel correspondence inside Coq, differential oracle render vs rays",
   "engine": "coq",
@@ -121,16 +121,28 @@ def images(rc, cam, nworld, w=W, h=H):
 
 
 def pixel_rays(m, dd, cam, nworld, w=W, h=H):
-  """origins / world directions (float32) of the pixel rays of one camera, every world"""
+  """origins / world directions (float32) of the property's pixel rays of one camera, every world.
+  Perspective: from the camera position through the pixel centre of the near-plane window.  Orthographic:
+  parallel to the optical axis from the pixel centre of the image window of height fovy (MuJoCo's
+  convention: fovy of an orthographic camera is the window height in length units)."""
   znear = float(m.vis.map.znear * m.stat.extent)
   dl = G.pixel_dirs(m, cam, w, h, znear)
   xpos, xmat = dd.cam_xpos.numpy(), dd.cam_xmat.numpy()
-  pnt = np.zeros((nworld, h * w, 3), np.float32)
-  vec = np.zeros((nworld, h * w, 3), np.float32)
+  pnt = np.zeros((nworld, h * w, 3), np.float64)
+  vec = np.zeros((nworld, h * w, 3), np.float64)
+  off = np.zeros((h * w, 3))
+  if m.cam_projection[cam] == 1:
+    hh = float(m.cam_fovy[cam]) / 2
+    hw = hh * w / h
+    for py in range(h):
+      for px in range(w):
+        u, v = (px + 0.5) / w, (py + 0.5) / h
+        off[py * w + px] = [-hw + 2 * hw * u, hh - 2 * hh * v, 0.0]
   for wd in range(nworld):
-    pnt[wd] = xpos[wd, cam]
-    vec[wd] = (xmat[wd, cam].astype(np.float64) @ dl.reshape(-1, 3).T).T
-  return dl, pnt, vec
+    R = xmat[wd, cam].astype(np.float64)
+    pnt[wd] = xpos[wd, cam] + (R @ off.T).T
+    vec[wd] = (R @ dl.reshape(-1, 3).T).T
+  return dl, pnt.astype(np.float32), vec.astype(np.float32)
 
 
 # ---------------------------------------------------------------- per-pixel correspondence inside Coq
@@ -145,11 +157,13 @@ def pixel_correspondence(res, trr, tru, nscenes, npix):
   defs, lines, meta = [G.COQ_ARRAY_DEFS], [], []
   for s in range(nscenes):
     ncam = 2
-    cams = G.random_cameras(rng, ncam, W, H)
+    cams = G.random_cameras(rng, ncam, W, H, ortho=0.34)
     xml = G.scene(rng, ngeom=(2, 6), types=G.PRIMS, alpha0=0.0, mats=False, cameras=cams, plane_infinite=0.3)
     m, ds, mm, dd = build(xml, rng)
     cull = bool(s % 2)
     groups = (0, 1, 2) if s % 3 else (0, 1, 2, 3, 4, 5)
+    if not np.isin(m.geom_group, groups).any():  # a render context without any geom crashes in wp.Bvh (noted in C34's findings)
+      groups = (0, 1, 2, 3, 4, 5)
     rc = render(m, mm, dd, cull, groups)
     order = rc.enabled_geom_ids.numpy()
     znear = float(m.vis.map.znear * m.stat.extent)
@@ -170,8 +184,8 @@ def pixel_correspondence(res, trr, tru, nscenes, npix):
         gdf = f"(fun o d g => @ray_geom float Sc ({tag}_xpos{wd} g) ({tag}_xmat{wd} g) ({tag}_size g) o d ({tag}_type g))"
         cr = f"(@compute_ray float Sc ({proj})%Z {vlib.fhex(fovy)} {G.fl(sens)} {G.fl(intr)} ({W})%Z ({H})%Z ({px})%Z ({py})%Z {vlib.fhex(np.float32(znear))})"
         exp = [float(dep[wd, py, px]), int(seg[wd, py, px, 0]), int(seg[wd, py, px, 1])]
-        lines.append(f"tv3 {vlib.fhex(3e-4)} (fun Sc => let '(dp, (sa, sb)) := @render_pixel float Sc {'true' if cull else 'false'} {G.fl(cxp[wd, c])} {G.fl(cxm[wd, c].reshape(9))} {cr} {gdf} {G.zl(order)} in [dp; f_ofZ sa; f_ofZ sb]) {vlib.flist(exp)}")
-        meta.append(dict(xml=xml, qpos=ds[wd].qpos.tolist(), world=wd, camera=c, px=px, py=py, cull=cull, groups=list(groups), impl=exp))
+        lines.append(f"tv3 {vlib.fhex(3e-4)} (fun Sc => let '(dp, (sa, sb)) := @render_pixel float Sc {'true' if cull else 'false'} ({proj})%Z {vlib.fhex(fovy)} ({W})%Z ({H})%Z ({px + py * W})%Z {G.fl(cxp[wd, c])} {G.fl(cxm[wd, c].reshape(9))} {cr} {gdf} {G.zl(order)} in [dp; f_ofZ sa; f_ofZ sb]) {vlib.flist(exp)}")
+        meta.append(dict(xml=xml, qpos=ds[wd].qpos.tolist(), world=wd, camera=c, px=px, py=py, cull=cull, groups=list(groups), projection=proj, impl=exp))
   verdicts = tvalid.run_cases("C35p", ["Model.Ray", "Gen.T_ray", "Gen.T_render_util"], lines, chunk=60, extra_defs="\n".join(defs))
   bad = []
   for md, v in zip(meta, verdicts):
@@ -181,7 +195,8 @@ def pixel_correspondence(res, trr, tru, nscenes, npix):
       bad.append(md)
   res.count(len(verdicts))
   res.extra["pixel_correspondence"] = {"cases": len(verdicts), "agree": verdicts.count(0), "discarded": verdicts.count(1), "disagree": verdicts.count(2),
-                                       "hit_pixels": sum(1 for md in meta if md["impl"][1] >= 0)}  # fmt: skip
+                                       "hit_pixels": sum(1 for md in meta if md["impl"][1] >= 0),
+                                       "orthographic_pixels": sum(1 for md in meta if md["projection"] == 1)}  # fmt: skip
   if meta:
     res.sample({"kind": "pixel correspondence (render_pixel model vs real render kernel)", **{k: meta[0][k] for k in ("world", "camera", "px", "py", "cull", "impl")}})
   return bad
@@ -247,11 +262,13 @@ def oracle(res, nscenes, types, tag, meshes=("cube", "octa")):
   allf, ncmp, ndisc, nhit = [], 0, 0, 0
   for s in range(nscenes):
     ncam = int(rng.integers(1, 4))
-    cams = G.random_cameras(rng, ncam, W, H)
+    cams = G.random_cameras(rng, ncam, W, H, ortho=0.3)
     xml = G.scene(rng, types=types, alpha0=0.0, mats=False, cameras=cams, meshes=meshes, plane_infinite=0.3)
     m, ds, mm, dd = build(xml, rng)
     cull = bool(s % 2)
     groups = (0, 1, 2) if s % 3 else (0, 1, 2, 3, 4, 5)
+    if not np.isin(m.geom_group, groups).any():  # a render context without any geom crashes in wp.Bvh (noted in C34's findings)
+      groups = (0, 1, 2, 3, 4, 5)
     rc = render(m, mm, dd, cull, groups)
     for c in range(ncam):
       n, nd, fails = compare_camera(m, mm, dd, rc, c, groups, cull, rng, ds)
@@ -292,15 +309,6 @@ def probe_scene(xml, cull=False, groups=(0, 1, 2, 3, 4, 5), qpos=None, camera=0)
   rc = render(m, mm, dd, cull, groups)
   dep, seg, _, _ = images(rc, camera, 2)
   dl, pnt, vec = pixel_rays(m, dd, camera, 2)
-  if m.cam_projection[camera] == 1:
-    hh = float(m.cam_fovy[camera]) / 2
-    hw = hh * W / H
-    xmat = dd.cam_xmat.numpy()
-    for wd in range(2):
-      for py in range(H):
-        for px in range(W):
-          u, v = (px + 0.5) / W, (py + 0.5) / H
-          pnt[wd, py * W + px] += (xmat[wd, camera].astype(np.float64) @ np.array([-hw + 2 * hw * u, hh - 2 * hh * v, 0.0])).astype(np.float32)
   gg = [1 if g in groups else 0 for g in range(6)]
   dist, gid, nrm = C34.cast(mm, dd, pnt, vec, gg, True, np.full(W * H, -1))
   gid = gid.reshape(2, H, W)
@@ -386,7 +394,7 @@ def run(res):
   found = False
   seen = set()
   fails = oracle(res, 10 if quick else 140, G.PRIMS, "primitives")
-  fails += oracle(res, 6 if quick else 80, G.PRIMS + ("mesh",), "with-mesh")
+  fails += oracle(res, 6 if quick else 80, G.PRIMS + ("mesh",), "with-mesh", meshes=("cube", "octa", "pyr"))
   lap("oracle")
   for f in fails:
     key = classify(f)
